@@ -30,7 +30,30 @@ def gen_rt(seed, tier="quick"):
             events[s["sid"]] = {"p": rng.choice([0.3, 0.7, 1.0]), "offsets": rng.choice([[1], [1, 2], [2, 3], [1, 5], [9]])}
     beh = {"kind": "rt", "K": K, "durations": durs, "events": events, "tb_next": [1, 2], "ev_next": [None, None, 1], "p_future": 0.0}
     scn = dict(scn, rt={"rt_factor": f, "time_resolution": r, "instant": instant, "strict": False})
-    if rng.random() < 0.25:
+    if rng.random() < 0.4:
+        # EXTERNAL events: set_event(t) called from outside a step at arbitrary wall-clock times (in eighths of a step), for
+        # the step that is running on the wall clock or a later one.  The receiver is an additional event-based simulator
+        # without connections and without self-scheduled steps, so every event time is in its future.
+        scn["sims"] = list(scn["sims"]) + [{"sid": "Sx", "type": "event-based", "gpath": list(rng.choice([[], [], [1]])), "initev": False, "nent": 1}]
+        ext, at, tprev = [], 0, 0
+        for _ in range(rng.randint(3, 6)):
+            at += rng.randint(1, 12)
+            # (at a wall-clock time of exactly k steps the strictly increasing clock already reads more than k: step k is past)
+            t = max(at // 8 + 1, tprev + 1) + rng.choice([0, 0, 0, 1])
+            ext.append({"sid": "Sx", "at": at, "t": t})
+            tprev = t
+        if rng.random() < 0.3:
+            # ... and a consumer that is triggered by it
+            scn["sims"].append({"sid": "Sy", "type": "event-based", "gpath": [], "initev": False, "nent": 1})
+            scn["conns"] = list(scn["conns"]) + [{"src": "Sx", "dst": "Sy", "sa": "e", "da": "ti"}]
+            beh["no_self_steps"] = ["Sx", "Sy"]
+        if rng.random() < 0.7:
+            beh["durations"], scn["rt"]["instant"] = [0], True
+        scn["rt"]["external"] = ext
+        scn["until"] = max(scn["until"], min(tprev + rng.choice([0, 1, 2]), 8))
+        beh.setdefault("no_self_steps", ["Sx"])
+        scn = S.normalize(scn)
+    if rng.random() < 0.25 and "external" not in scn["rt"]:
         # the shipped LocalProxy: synchronous in-process simulators (a whole step completes before the next process starts)
         scn["transport"] = "local"
         scn["rt"]["instant"] = True
